@@ -1,6 +1,7 @@
 #include "caseio.h"
 #include <ctype.h>
 #include <stdarg.h>
+#include <errno.h>
 #include <stdio.h>
 #include <stdlib.h>
 #include <string.h>
@@ -77,8 +78,9 @@ vcase_parse(const char *text, vcase *c)
 				o->nd++;
 			} else {
 				char *end;
+				errno       = 0;
 				long long v = strtoll(tok, &end, 0);
-				if (*end || o->na >= VOP_MAXA) {
+				if (*end || errno == ERANGE || o->na >= VOP_MAXA) {
 					// allow unsigned 64-bit
 					unsigned long long u = strtoull(tok, &end, 0);
 					if (*end || o->na >= VOP_MAXA) {
